@@ -307,7 +307,7 @@ def run(tier, seed):
 
     chk.extra["behaviours"] = dict(bfs=sum(1 for _, o in behs if o == "bfs"), sim=sum(1 for _, o in behs if o == "sim"),
                                    clean=len(clean))
-    chk.assumptions += ["CPU only, gpu=False passed everywhere (gpu=True only warns without a device)",
+    chk.assumptions += ["CPU only; gpu=False or gpu=True (which falls back to the CPU with a warning) passed in rotation",
                         "num_hidden / num_aux >= 1 when given; modules of the matching RBM class",
                         "the user never writes to an auxiliary bias; user writes are in place",
                         "training data contains >= 1 all-Z row; optimizers without weight decay",
